@@ -1,13 +1,13 @@
 SPECIFICATION Spec
 CONSTANTS
-  Devs <- DevAll
+  Devs <- DevBoth
   Ops <- OpsContent
   ByteStrings <- BytesTwo
   NumSeqs <- NumsTwo
   NewObjs <- MCNewObjs
   MaxDepth = 5
   Starts <- StartsContent
-  Allowed = {"content.sharedStream", "resources.nameCollision"}
+  Allowed = {}
   Emit = TRUE
   EmitMod = 2000
   EmitModV = 200
